@@ -39,7 +39,27 @@ def show_ndef(nd):
 
 class Result(object):
     __slots__ = ("canon", "cls", "exc", "loop", "n", "log", "tag", "ndef", "octets", "length", "capacity", "where",
-                 "words", "n_at", "present", "bad")
+                 "words", "n_at", "present", "bad", "snaps")
+
+
+def stored_inside(tag, nd):
+    """Type 1/2 only: do the length field and the value of the message TLV the reader found lie inside the
+    data area (placed around the reader's skip bytes)?  Used to tell the capacity formula's own
+    shortfall (257 free bytes and a 254 byte message with a one byte length field; length field on a reserved
+    byte; no room behind the length field) from a message that reaches beyond the area."""
+    try:
+        if isinstance(tag, nfc.tag.tt1.Type1Tag):
+            base = "t1"
+        elif isinstance(tag, nfc.tag.tt2.Type2Tag):
+            base = "t2"
+        else:
+            return False
+        mem, off, skip = nd._tag_memory, nd._ndef_tlv_offset, nd._skip_bytes
+        end = (mem[10] + 1) * 8 if base == "t1" else mem[14] * 8 + 16
+        head = off + (4 if mem[off + 1] == 0xFF else 2)
+        return head <= end and nd.length <= len(set(range(head, end)) - skip)
+    except Exception:
+        return False
 
 
 def run_real(responder, budget, max_send=256, max_recv=256, stop_after=None, garble=None, ops="nhp"):
@@ -52,6 +72,7 @@ def run_real(responder, budget, max_send=256, max_recv=256, stop_after=None, gar
     r.loop = False
     r.where = "activate"
     r.words, r.n_at, r.present, r.bad = [], [], [], []
+    r.snaps = []        # every NDEF object an operation showed: (length, capacity, number of octets, stored inside the area)
     try:
         tag = nfc.tag.activate(clf, responder.target())
         r.n_at.append(len(clf.log))
@@ -92,6 +113,7 @@ def run_real(responder, budget, max_send=256, max_recv=256, stop_after=None, gar
                 r.ndef = nd
                 if nd is not None:
                     r.octets, r.length, r.capacity = bytes(nd.octets), nd.length, nd.capacity
+                    r.snaps.append((r.length, r.capacity, len(r.octets), stored_inside(tag, nd)))
             r.canon = " ".join(["tag " + r.cls] + r.words)
     except BudgetExceeded:
         r.loop = True
